@@ -184,3 +184,18 @@ Qed.
 Theorem agreement_refuted_equivocation_only :
   exists w, prun (init_world 4 [3]) f14b_history = Some w /\ few_faults w = true /\ ~ agreement w.
 Proof. exact (refutes_sound _ _ _ f14b_history_valid_and_conflicting). Qed.
+
+(** Third witness: no correct producer produces anything (all offline or partitioned away); the
+    single Byzantine producer signs three blocks with inflated Confirms on each of two branches.
+    Each node's proposal map has one entry, calcLIB takes index (1-1)/3 = 0 of it, and the two
+    correct nodes report conflicting LIBs at height 1.  No lock on correct producers can prevent
+    this: the 2/3 rule counts the entries of the map (n'), not the producer count (n). *)
+Definition solo_history : list pevent :=
+  [Produce 3 3 0 1 1; Produce 3 7 1 2 2; Produce 3 11 2 3 3;
+   Produce 3 3 0 1 11; Produce 3 7 11 2 12; Produce 3 11 12 3 13;
+   Deliver 0 1; Deliver 0 2; Deliver 0 3; Deliver 2 11; Deliver 2 12; Deliver 2 13].
+Example solo_history_valid_and_conflicting : refutes solo_history 0 2 = true.
+Proof. vm_compute. reflexivity. Qed.
+Theorem agreement_refuted_single_producer :
+  exists w, prun (init_world 4 [3]) solo_history = Some w /\ few_faults w = true /\ ~ agreement w.
+Proof. exact (refutes_sound _ _ _ solo_history_valid_and_conflicting). Qed.
